@@ -43,7 +43,7 @@ def db_case(args):
     if new == data:
         shutil.rmtree(work, ignore_errors=True); return None
     open(p, 'wb').write(new)
-    ops = ['open'] + ['get %s -' % k3lib.khex(k) for k in allkeys[:6]] + ['scan -', 'rscan -', 'compact * *', 'crange 1 * *', 'reopen', 'scan -', 'repair 0', 'scan -', 'repair 2', 'rscan -']
+    ops = ['dumpall', 'open'] + ['get %s -' % k3lib.khex(k) for k in allkeys[:6]] + ['scan -', 'rscan -', 'compact * *', 'crange 1 * *', 'reopen', 'scan -', 'dumpall', 'repair 0', 'scan -', 'repair 2', 'rscan -', 'dumpall']
     env = dict(os.environ, ASAN_OPTIONS='allocator_may_return_null=1:max_allocation_size_mb=256:detect_leaks=0', UBSAN_OPTIONS='halt_on_error=1:print_stacktrace=1')
     try:
         r = subprocess.run([k2a, work] + ['%s=%s' % kv for kv in sorted(opts.items())], input=('\n'.join(ops) + '\n').encode(),
